@@ -113,7 +113,9 @@ Section More.
       destruct (o_fs_read orc a) as [file|]; [|exact H].
       destruct (o_include_opts orc (p_optblock p)) as [literal iho].
       destruct literal; [exact H|].
-      destruct (den_nested env orc rd true h (join nl (splitlines file)) (0 + 1) false iho)
+      destruct (mem_str a (o_source orc :: s_incl h)); [exact H|].
+      destruct (den_nested env orc rd true (set_incl (s_incl h ++ [a]) h)
+                  (join nl (splitlines file)) (0 + 1) false iho)
         as [[[direct h2] b2]|] eqn:E; [|discriminate].
       simpl in H. assert (b2 = false) by (inversion H; reflexivity). subst b2.
       rewrite (topmono_nested rd Hm _ _ _ _ _ _ _ E). exact H.
@@ -158,12 +160,14 @@ Section More.
       o_fs_read orc a = Some file ->
       o_include_opts orc (p_optblock p) = (false, iho) ->
       o_opt_validate orc include_name (p_optblock p) = (attrs, warns) ->
+      str_eqb a (o_source orc) = false ->
       (* the file's text, rendered as a document body with the include's heading offset *)
-      den_text_at env orc f true iho (sh0 e0) (join nl (splitlines file) ++ nl) 1 = Ok (ns, h, false) ->
+      den_text_at env orc f true iho (set_incl [a] (sh0 e0)) (join nl (splitlines file) ++ nl) 1
+        = Ok (ns, h, false) ->
       render_doc env orc (S f) e0 (unlines (print_lines (Include path) []))
-      = Ok (directive_warnings p warns 1 ++ ns, h).
+      = Ok (directive_warnings p warns 1 ++ ns, set_incl (removelast (s_incl h)) h).
     Proof.
-      intros Hsafe Hinfo Hdir Hp Hargs Hfs Hopts Hval Hden.
+      intros Hsafe Hinfo Hdir Hp Hargs Hfs Hopts Hval Hsrc Hden.
       eapply (render_doc_den env orc O_adm).
       - cbn [print_lines]. unfold open_line.
         change (unlines [repeat (fchar Backtick) 3 ++ [c_lbrace] ++ include_name ++ [c_rbrace] ++
@@ -177,8 +181,11 @@ Section More.
         replace (negb false && str_eqb include_name eval_rst_name) with false by reflexivity.
         cbn [token_line bind andb]. unfold den_directive. rewrite Hdir.
         cbn [unlines]. rewrite Hp, Hval. unfold den_include. rewrite Hargs, Hfs, Hopts.
+        replace (mem_str a (o_source orc :: s_incl (sh0 e0))) with false
+          by (simpl; rewrite Hsrc; reflexivity).
         unfold den_text_at in Hden. unfold den_nested.
-        destruct (o_P orc (s_env (sh0 e0)) (join nl (splitlines file) ++ nl)) as [toks e'].
+        change (set_incl (s_incl (sh0 e0) ++ [a]) (sh0 e0)) with (set_incl [a] (sh0 e0)).
+        destruct (o_P orc (s_env (set_incl [a] (sh0 e0))) (join nl (splitlines file) ++ nl)) as [toks e'].
         change (0 + 1) with 1. rewrite Hden. simpl. rewrite app_nil_r. reflexivity.
     Qed.
   End Include.
@@ -201,8 +208,8 @@ Section More.
       intros Hb Hc Hns Hexp. split.
       - apply (directive_transparent env orc O_adm O_fence _ X F e0 r Hb Hexp).
       - apply (directive_transparent env orc O_adm O_fence _ X F e0 r Hc).
-        cbn [expected] in *. unfold directive_content in *. cbn [is_colon andb] in *.
-        rewrite Hns. exact Hexp.
+        cbn [expected] in *. unfold directive_content, prepended_lines in *.
+        cbn [is_colon andb] in *. rewrite Hns. exact Hexp.
     Qed.
   End SameFence.
 
@@ -216,20 +223,27 @@ Section More.
     o_fs_read orc a = Some file ->
     o_include_opts orc (p_optblock p) = (false, iho) ->
     o_opt_validate orc include_name (p_optblock p) = (attrs, warns) ->
+    mem_str a (o_source orc :: s_incl (shr s)) = false ->
     render_step env orc rr s (TFence false (info_of include_name path) [] mp)
     = (do s1 <- extend_cur s (directive_warnings p warns position);
-       do s2 <- nested_render_text env orc rr s1 (join nl (splitlines file)) 1 false None iho;
-       extend_cur s2 []).
+       do s2 <- nested_render_text env orc rr
+                  (set_shr (set_incl (s_incl (shr s1) ++ [a]) (shr s1)) s1)
+                  (join nl (splitlines file)) 1 false None iho;
+       extend_cur (set_shr (set_incl (removelast (s_incl (shr s2))) (shr s2)) s2) []).
   Proof.
-    intros Hinfo Hline Hdir Hp Hargs Hfs Hopts Hval.
+    intros Hinfo Hline Hdir Hp Hargs Hfs Hopts Hval Hlog.
     cbn [render_step]. unfold render_fence. rewrite Hinfo, directive_name_braces.
     replace (negb false && str_eqb include_name eval_rst_name) with false by reflexivity.
     cbn [andb]. unfold render_directive. rewrite Hline. cbn [bind].
     unfold run_directive. rewrite Hdir, Hp, Hval.
-    destruct (extend_cur s (directive_warnings p warns position)) as [s1|]; [|reflexivity].
+    destruct (extend_cur s (directive_warnings p warns position)) as [s1|] eqn:E1; [|reflexivity].
     cbn [bind]. unfold include_run. rewrite Hargs, Hfs, Hopts.
+    assert (Hshr : shr s1 = shr s).
+    { unfold extend_cur in E1. destruct (extend_loc (cur s) _ (roots s)); [|discriminate].
+      inversion E1; reflexivity. }
+    rewrite Hshr, Hlog.
     change (0 + 1) with 1.
-    destruct (nested_render_text env orc rr s1 (join nl (splitlines file)) 1 false None iho);
+    destruct (nested_render_text env orc rr _ (join nl (splitlines file)) 1 false None iho);
       reflexivity.
   Qed.
 
